@@ -206,6 +206,7 @@ package proto
 //@   let base = offset(b.Buf) + old(len(b.Buf))
 //@   ensures appendOnly(b, strOff(fieldarr(c.Pos, Start), fieldarr(c.Pos, End), offset(c.Pos), len(c.Pos))) {length}
 //@   ensures forall k in 0..len(c.Pos) :: uvAt(arrayof(b.Buf), base + strOff(fieldarr(c.Pos, Start), fieldarr(c.Pos, End), offset(c.Pos), k), c.Pos[k].End - c.Pos[k].Start) {row-length-prefixes}
+//@   ensures forall k in 0..len(c.Pos) :: forall j in 0..c.Pos[k].End - c.Pos[k].Start :: arrayof(b.Buf)[base + strOff(fieldarr(c.Pos, Start), fieldarr(c.Pos, End), offset(c.Pos), k) + uvsize(c.Pos[k].End - c.Pos[k].Start) + j] == c.Buf[c.Pos[k].Start + j] {row-bytes}
 //@ loop 0 (rangeindex)
 //@   modifies b.Buf, contents(buf)
 //@   invariant -1 <= rangeindex && rangeindex < len(c.Pos) && len(buf) == 10
@@ -213,6 +214,7 @@ package proto
 //@   invariant forall k in 0..old(len(b.Buf)) :: b.Buf[k] == old(b.Buf[k])
 //@   invariant forall k in 0..rangeindex + 1 :: trigger(strOff(fieldarr(c.Pos, Start), fieldarr(c.Pos, End), offset(c.Pos), k), strOff(fieldarr(c.Pos, Start), fieldarr(c.Pos, End), offset(c.Pos), k + 1) <= strOff(fieldarr(c.Pos, Start), fieldarr(c.Pos, End), offset(c.Pos), rangeindex + 1))
 //@   invariant forall k in 0..rangeindex + 1 :: uvAt(arrayof(b.Buf), offset(b.Buf) + old(len(b.Buf)) + strOff(fieldarr(c.Pos, Start), fieldarr(c.Pos, End), offset(c.Pos), k), c.Pos[k].End - c.Pos[k].Start)
+//@   invariant forall k in 0..rangeindex + 1 :: forall j in 0..c.Pos[k].End - c.Pos[k].Start :: arrayof(b.Buf)[offset(b.Buf) + old(len(b.Buf)) + strOff(fieldarr(c.Pos, Start), fieldarr(c.Pos, End), offset(c.Pos), k) + uvsize(c.Pos[k].End - c.Pos[k].Start) + j] == c.Buf[c.Pos[k].Start + j]
 
 //@ contract (c ColStr) Rows() (n) props(C01,C06,C16)
 //@   ensures n == len(c.Pos)
